@@ -703,12 +703,29 @@ func (a *adversary) playEquivocate(w *world, id string) {
 		}
 	}
 	a.rng.Shuffle(len(reqs), func(i, j int) { reqs[i], reqs[j] = reqs[j], reqs[i] })
-	for _, q := range reqs {
-		a.sigReq(w, q.to, id, ps[q.pi].any, ps[q.pi].p.Tag, "equivocation")
+	// In a third of the plays every payload but the first travels under ANOTHER SPELLING of the
+	// message id (trailing or doubled slash, "./" prefix, other case, trailing blank): to a member
+	// that normalises ids somewhere but not everywhere these are the same id for delivery and
+	// different ids for its sign-once record.
+	wireID := make([]string, len(ps))
+	for i := range ps {
+		wireID[i] = id
 	}
-	for _, x := range ps {
+	spell := ""
+	if a.rng.Intn(3) == 0 {
+		spell = "/other-spelling-of-the-id"
+		for i := 1; i < len(ps); i++ {
+			wireID[i] = idSpelling(id, a.rng.Intn(6)+i)
+		}
+		a.count("equivocation_plays_with_other_spellings_of_the_id", 1)
+	}
+	for _, q := range reqs {
+		a.sigReq(w, q.to, wireID[q.pi], ps[q.pi].any, ps[q.pi].p.Tag, "equivocation"+spell)
+	}
+	for xi, x := range ps {
+		id := wireID[xi]
 		sigs, complete := a.buildSigs(w, id, x.any, kit.Pick(a.rng, fillers), nil)
-		label := "equivocation"
+		label := "equivocation" + spell
 		if !complete {
 			label += "-incomplete"
 		}
@@ -716,6 +733,24 @@ func (a *adversary) playEquivocate(w *world, id string) {
 		for _, to := range a.subset(a.honest(), true) {
 			a.sendMsg(w, to, m, label)
 		}
+	}
+}
+
+// idSpelling returns another string that a normalising reader could take for id.
+func idSpelling(id string, k int) string {
+	switch k % 6 {
+	case 0:
+		return id + "/"
+	case 1:
+		return strings.Replace(id, "/", "//", 1)
+	case 2:
+		return "./" + id
+	case 3:
+		return id + " "
+	case 4:
+		return strings.ToUpper(id[:1]) + id[1:]
+	default:
+		return id + "/."
 	}
 }
 
